@@ -117,7 +117,7 @@ theorem C10_composite (p : Program) (hchk : PlanCheck.checkProgU p = true)
     ∃ ws, v' = .struct ws ∧
       ∀ (i : Nat) (tf : FieldInfo) (tty : Ty), tfs.toList[i]? = some (tf, tty) →
         ∃ f, plans.toList[i]? = some f ∧
-          FieldOutcome p.conv.env sfs.toList fs tf tty (oldFields (erase old)) (erase.eraseFields ws) f := by
+          FieldOutcome p.conv.env (CtorSig p) sfs.toList fs tf tty (oldFields (erase old)) (erase.eraseFields ws) f := by
   obtain ⟨ws, hv', himg⟩ := update_struct_onto p (checkProgU_sound p hchk) m gm srcIsPtr plans upd hm hb s t htys sfs tfs hs ht
     src fs hsrc hwt old (oldOK_of_WT hold) fuel fr n v' n' hev
   exact ⟨ws, hv', fun i tf tty hi => himg.outcome i tf tty hi⟩
@@ -130,13 +130,13 @@ theorem C10_composite_onto (p : Program) (hchk : PlanCheck.checkProgU p = true)
     (fuel : Nat) (fr : Frame) (c : Conv) (s t : Ty) (v old : Val) (n : Nat) (v' : Val) (n' : Nat)
     (hc : PlanCheck.checkTyU p c s t = true) (hwt : WT p.conv.env v s) (hold : WT p.conv.env old t)
     (hev : evalConv p fuel fr c v old n = .ok (v', n')) :
-    ImgOnto p.conv.env s t v (erase old) (erase v') :=
+    ImgOnto p.conv.env (CtorSig p) s t v (erase old) (erase v') :=
   evalConv_onto p (checkProgU_sound p hchk) fuel fr c s t v old n v' n' (checkTyU_sound p c s t hc) hwt (oldOK_of_WT hold) hev
 
 open Gv.Spec in
 /-- what the relation says at a basic target type: an assigned field holds exactly the payload of its source -/
-theorem C10_onto_basic {env : TEnv} {s t : Ty} {r : S} {k : Kind} {old w : Val} (ht : under env t = .basic k)
-    (h : ImgOnto env s t (.basic r) old w) : w = .basic r :=
+theorem C10_onto_basic {env : TEnv} {K : Ty → Ty → Bool → Prop} {s t : Ty} {r : S} {k : Kind} {old w : Val}
+    (ht : under env t = .basic k) (h : ImgOnto env K s t (.basic r) old w) : w = .basic r :=
   ImgOnto.basic_inv_aux h r k rfl ht
 
 open Gv.Typing Gv.Spec Gv.Sound in
@@ -155,7 +155,7 @@ theorem C10_composite_run (p : Program) (hchk : PlanCheck.checkProgU p = true)
       ∃ ws, r = .ptr l (.struct ws) ∧
         ∀ (i : Nat) (tf : FieldInfo) (tty : Ty), tfs.toList[i]? = some (tf, tty) →
           ∃ f, plans.toList[i]? = some f ∧
-            FieldOutcome p.conv.env sfs.toList fs tf tty (oldFields (erase old)) (erase.eraseFields ws) f) := by
+            FieldOutcome p.conv.env (CtorSig p) sfs.toList fs tf tty (oldFields (erase old)) (erase.eraseFields ws) f) := by
   unfold runMethod at hrun
   simp [hm, hb, ha, hsu, htu, List.zip, List.find?] at hrun
   refine ⟨?_, ?_⟩
